@@ -44,6 +44,10 @@ func NewSolver(ctx *Ctx, timeoutMs int) *Solver {
 	if b := os.Getenv("GOSYM_SOLVER"); b != "" {
 		s.Bin = strings.Fields(b)
 	}
+	if p := os.Getenv("GOSYM_SOLVER_LOG"); p != "" {
+		f, _ := os.OpenFile(fmt.Sprintf("%s.%d", p, time.Now().UnixNano()), os.O_CREATE|os.O_WRONLY|os.O_TRUNC, 0o644)
+		s.Log = f
+	}
 	s.start()
 	return s
 }
@@ -212,7 +216,7 @@ func (s *Solver) Check(conds []*Term, wantModel bool) (Result, map[string]*big.I
 		res = Sat
 		s.Stats.Sat++
 		if wantModel {
-			model = s.getModel()
+			model = s.getModel(live)
 		}
 	case "unsat":
 		res = Unsat
@@ -307,14 +311,26 @@ func (s *Solver) CheckValue(conds []*Term, t *Term) (Result, *big.Int) {
 	return res, val
 }
 
-func (s *Solver) getModel() map[string]*big.Int {
+// getModel returns the values of the variables occurring in conds; nil if any of them could not be read.
+func (s *Solver) getModel(conds []*Term) map[string]*big.Int {
 	m := map[string]*big.Int{}
+	need := new(big.Int)
+	for _, c := range conds {
+		need.Or(need, s.ctx.VarSet(c))
+	}
 	var vars []*Term
-	for _, v := range s.ctx.Vars {
-		if s.defined[v.ID] {
+	for i, v := range s.ctx.Vars {
+		if need.Bit(i+1) == 1 && s.defined[v.ID] {
 			vars = append(vars, v)
 		}
 	}
+	defer func() {
+		for _, v := range vars {
+			if _, ok := m[fmt.Sprintf("%s!%d", v.Name, v.W)]; !ok {
+				m["!incomplete"] = big.NewInt(1)
+			}
+		}
+	}()
 	// batch in groups
 	for i := 0; i < len(vars); i += 50 {
 		j := i + 50
